@@ -239,6 +239,22 @@ pub fn run(ctx: &Ctx, rep: &Report) {
             g[k] += local[k];
         }
     });
+    for len in [41usize, 44, 45, 46, 63, 64, 65, 100, 255, 256, 1000, 70_000] {
+        for magic in [0x10u8, 0x20, 0x00] {
+            for fill in [0x00u8, 0xff, 0x5a] {
+                let mut pkt = vec![fill; len];
+                pkt[3] = magic;
+                for r in &refs {
+                    let c = check_total(1_655_274_034, r, &pkt, rep);
+                    oc.lock().unwrap()[c as usize] += 1;
+                    total.fetch_add(1, Ordering::Relaxed);
+                    if c == 1 {
+                        accepted.fetch_add(1, Ordering::Relaxed);
+                    }
+                }
+            }
+        }
+    }
     rep.part("totality", total.load(Ordering::Relaxed), json!({"lengths": "0..=40", "magic": 256, "fills": 3, "timestamps": times.len(), "references": refs.len()}));
     // well-formed packets against the adversarial references (decode path really runs)
     {
@@ -345,7 +361,9 @@ pub fn run(ctx: &Ctx, rep: &Report) {
     // truncated and over-long well-formed packets (the decoder must answer with a record or an error)
     {
         let full = Fields::base().packet(base_t);
-        for len in 0..=full.len() + 6 {
+        let mut lens: Vec<usize> = (0..=96).collect();
+        lens.extend([100, 127, 128, 129, 200, 255, 256, 257, 511, 512, 1000, 1024, 4096, 65_535, 65_536, 100_000]);
+        for len in lens {
             let mut p = full.clone();
             p.resize(len, 0x77);
             let c = check_total(base_t, &base_ref, &p, rep);
@@ -462,7 +480,7 @@ pub fn run(ctx: &Ctx, rep: &Report) {
     rep.trans(t);
     rep.state(t);
     rep.nontriv(accepted.load(Ordering::Relaxed));
-    rep.set_bound(&format!("lengths 0..=40 x 256 magic bytes x 3 fills x 7 timestamps x 10 references; all 16 types x flags, all 8192 altitudes, 4096 gps codes, 6 x 65536 address windows, {} timestamps, all 2^19 latitude and 2^20 longitude codes for {} references, {} velocity component tuples", ts.len(), pos_refs.len(), tuples));
+    rep.set_bound(&format!("lengths 0..=40 x 256 magic bytes x 3 fills x 7 timestamps x 10 references, 12 longer lengths up to 70,000 bytes, a valid packet cut or padded to 0..=96 and 16 longer lengths; all 16 types x flags, all 8192 altitudes, 4096 gps codes, 6 x 65536 address windows, {} timestamps, all 2^19 latitude and 2^20 longitude codes for {} references, {} velocity component tuples", ts.len(), pos_refs.len(), tuples));
     if !thorough {
         rep.not_exhaustive("quick tier: 3 position references, 32 boundary values per velocity component");
     } else {
